@@ -144,9 +144,9 @@ type Info struct {
 	// (RSA-SSA-PSS with salt_len 0: "salt length zero cannot be serialized").  Such a key works in a
 	// keyset handle built with keyset.Manager but the handle cannot be written or converted.
 	NoSerialization bool
-	Desc    string
-	Secrets [][]byte
-	Fields  map[string]any
+	Desc            string
+	Secrets         [][]byte
+	Fields          map[string]any
 
 	rebuild builder
 }
